@@ -198,7 +198,7 @@ func TestC07(t *testing.T) {
 		return
 	}
 
-	search(t, rec, "history", budget(1500, 48000), 30, func(rt *rapid.T) {
+	search(t, rec, "history", budget(1500, 400000), 30, func(rt *rapid.T) {
 		W := rapid.Int64Range(2, 6).Draw(rt, "window")
 		C := rapid.Int64Range(2, 5).Draw(rt, "check")
 		w := newC07World(c, W, C)
